@@ -277,17 +277,13 @@ pub fn c01(ctx: &Ctx, rep: &mut Report) {
             let r = ref_fasta(&bytes);
             let extents: Vec<usize> = r.recs.iter().map(|x| x.extent()).collect();
             let input = Rc::new(bytes);
-            for _ in 0..2 {
-                let cfg = gen::gen_config(&mut rng, input.len(), &extents);
-                c01_one(
-                    ctx,
-                    idx,
-                    rep,
-                    input.clone(),
-                    &cfg,
-                    &[Via::Next, Via::Records, Via::IntoRecords],
-                    family,
-                );
+            for k in 0..2 {
+                let mut cfg = gen::gen_config(&mut rng, input.len(), &extents);
+                if ctx.miri {
+                    cfg.cap = cfg.cap.min(3 + (idx as usize + k) % 14);
+                }
+                let vias: &[Via] = if ctx.miri && k == 1 { &[Via::Records] } else if ctx.miri { &[Via::Next] } else { &[Via::Next, Via::Records, Via::IntoRecords] };
+                c01_one(ctx, idx, rep, input.clone(), &cfg, vias, family);
             }
         }
         if ctx.only.is_some() {
@@ -546,17 +542,13 @@ pub fn c02(ctx: &Ctx, rep: &mut Report) {
             let r = crate::refmodel::ref_fastq(&bytes);
             let extents: Vec<usize> = r.recs.iter().map(|x| x.extent()).collect();
             let input = Rc::new(bytes);
-            for _ in 0..2 {
-                let cfg = gen::gen_config(&mut rng, input.len(), &extents);
-                c02_one(
-                    ctx,
-                    idx,
-                    rep,
-                    input.clone(),
-                    &cfg,
-                    &[Via::Next, Via::Records, Via::IntoRecords],
-                    family,
-                );
+            for k in 0..2 {
+                let mut cfg = gen::gen_config(&mut rng, input.len(), &extents);
+                if ctx.miri {
+                    cfg.cap = cfg.cap.min(3 + (idx as usize + k) % 14);
+                }
+                let vias: &[Via] = if ctx.miri && k == 1 { &[Via::Records] } else if ctx.miri { &[Via::Next] } else { &[Via::Next, Via::Records, Via::IntoRecords] };
+                c02_one(ctx, idx, rep, input.clone(), &cfg, vias, family);
             }
         }
         if ctx.only.is_some() {
